@@ -32,13 +32,6 @@ fn build_from_parsed(
     parsed: ParseResult,
     common_context: &CommonContext,
 ) -> Result<BuildResult, Error> {
-    #[cfg(feature = "verif")]
-    crate::verif::emit(format!(
-        "\"ev\":\"begin\",\"avr8l\":{},\"ram_start\":{}",
-        common_context.get_device().is_avr8l(),
-        common_context.get_device().ram_start
-    ));
-
     let passed_0 = pass0(parsed, common_context)?;
 
     let passed_1 = pass1(passed_0, common_context)?;
